@@ -40,7 +40,8 @@ class RefResult:
         self.caller_reads = st.caller_reads
         self.caller_tmpl_reads = st.caller_tmpl_reads
         # bodies the eager computation ran ONLY inside coalesce members that failed (nested failures counted once per level)
-        self.failed_member_bodies = {b for b, c in st.failed_member_counts.items() if c >= st.touched.count(b)}
+        self.failed_member_bodies = {b for b in set(st.touched)
+                                     if all(i in st.failed_member_idx for i, x in enumerate(st.touched) if x == b)}
 
     def key(self):
         return ("ok", self.value) if self.ok else ("fail", self.fails)
@@ -57,7 +58,7 @@ class _State:
         self.foreign_depth = 0       # >0 while evaluating under options other than the caller's (with / presets / Map assignment)
         self.caller_reads = {}       # keys read from the caller's own dictionary -> present?
         self.caller_tmpl_reads = {}  # ... of which as template references
-        self.failed_member_counts = {}  # body -> times the eager computation ran it inside a coalesce member that failed
+        self.failed_member_idx = set()  # indices into `touched` of body executions inside a coalesce member that failed
         self.choosers = set() # bodies executed while computing a value that selects a branch / assignment
         self.chooser_depth = 0
         self.chooser_failed = False
@@ -415,8 +416,7 @@ class Ref:
             mark_t = len(self.st.touched)
             ok, v = self.attempt(lambda: self.ev(m, o))
             if not ok:
-                for b_ in self.st.touched[mark_t:]:
-                    self.st.failed_member_counts[b_] = self.st.failed_member_counts.get(b_, 0) + 1
+                self.st.failed_member_idx.update(range(mark_t, len(self.st.touched)))
             if ok:
                 if i > 0:
                     self.st.labels.add("coalesce-fallthrough")
